@@ -1,12 +1,92 @@
 /-
 Driver commands of property C08 (core Lean only).  Command names start with "c08.".
+
+Header arguments (5 tokens): <name> <comment> <extra> <mtime> <os>
+   name/comment = comma-separated decimal runes of the Go string or "-", extra = hex or "-",
+   mtime = ModTime.Unix() if ModTime is after the epoch else 0, os = decimal byte.
+
+  c08.member <hdr x5> <xfl> <payload length> <crc32 of the payload> <DEFLATE stream of the payload, hex>
+      -> "ok <member hex>" | "gzip" | "nobc" | "overflow"          (Member.writeBlock, repaired search)
+  c08.memberorig ...same...                                          (Member.writeBlockOrig, unrepaired search)
+  c08.close <hdr x5> <xfl> <blocks>      blocks = comma-separated <payload length>:<DEFLATE length>, in queue order
+      -> "<close result> <output length> <hasEOF> <member sizes>"    (Member.closeOutput / hasEOF)
+         close result = ok | gzip | nobc | overflow
+  c08.bound <n>  -> compressBound n
 -/
 import Hts.Drv.Util
+import Hts.Drv.C01
+import Hts.Model.Member
 namespace Hts.Drv.C08
-open Hts.Drv
+open Hts.Drv Hts.Model Hts.Model.Member
+
+def parseHeader (name comment extra mtime os : String) : Option Header := do
+  let nm ← (C01.splitList name).mapM (·.toNat?)
+  let cm ← (C01.splitList comment).mapM (·.toNat?)
+  let ex ← parseHex extra
+  let mt ← mtime.toNat?
+  let o ← os.toNat?
+  some { name := nm, comment := cm, extra := ex.map UInt8.ofNat, mtime := mt, os := UInt8.ofNat o }
+
+def showErr : WErr → String
+  | .gzip => "gzip"
+  | .noBC => "nobc"
+  | .overflow => "overflow"
+
+def hexBytes (bs : List Byte) : String := hexOfNats (bs.map UInt8.toNat)
+
+/-- a codec that answers with recorded values: `deflate` by payload length and first byte -/
+def tableCodec (xfl : Nat) (tbl : List (Nat × Nat × List Byte)) (crc : Nat) : CodecFns :=
+  { deflate := fun p =>
+      match tbl.find? (fun e => e.1 == p.length && e.2.1 == (p.headD 0).toNat) with
+      | some e => e.2.2
+      | none => []
+    inflate := fun _ => none
+    crc32 := fun _ => crc
+    xfl := UInt8.ofNat xfl }
+
+def parsePair (t : String) : Option (Nat × Nat) :=
+  match t.splitOn ":" with
+  | [a, b] => do some ((← a.toNat?), (← b.toNat?))
+  | _ => none
+
+/-- sizes of the members in `out`, read from the model's own BSIZE at offset 16 (display only) -/
+def memberSizes : Nat → List Byte → List Nat
+  | 0, _ => []
+  | _, [] => []
+  | fuel + 1, s =>
+    match s[16]?, s[17]? with
+    | some a, some b => let n := u16 a b + 1; n :: memberSizes fuel (s.drop n)
+    | _, _ => [s.length]
 
 def handle (cmd : String) (args : List String) : Option String :=
   match cmd, args with
+  | "c08.member", [name, comment, extra, mtime, os, xfl, plen, crc, defl] => do
+    let h ← parseHeader name comment extra mtime os
+    let d ← parseHex defl
+    let c := tableCodec (← xfl.toNat?) [((← plen.toNat?), 0, d.map UInt8.ofNat)] (← crc.toNat?)
+    match writeBlock c h (List.replicate (← plen.toNat?) 0) with
+    | .ok m => some s!"ok {hexBytes m}"
+    | .error e => some (showErr e)
+  | "c08.memberorig", [name, comment, extra, mtime, os, xfl, plen, crc, defl] => do
+    let h ← parseHeader name comment extra mtime os
+    let d ← parseHex defl
+    let c := tableCodec (← xfl.toNat?) [((← plen.toNat?), 0, d.map UInt8.ofNat)] (← crc.toNat?)
+    match writeBlockOrig c h (List.replicate (← plen.toNat?) 0) with
+    | .ok m => some s!"ok {hexBytes m}"
+    | .error e => some (showErr e)
+  | "c08.close", [name, comment, extra, mtime, os, xfl, blocks] => do
+    let h ← parseHeader name comment extra mtime os
+    let prs ← (C01.splitList blocks).mapM parsePair
+    let idx := (List.range prs.length).zip prs
+    -- block i has payload `replicate len (i mod 256)`; DEFLATE stream = `replicate dlen 0`
+    let tbl := idx.map (fun (i, (l, dl)) => (l, (if l = 0 then 0 else i % 256), List.replicate dl (0 : Byte)))
+    let c := tableCodec (← xfl.toNat?) tbl 0
+    let payloads := idx.map (fun (i, (l, _)) => List.replicate l (UInt8.ofNat (i % 256)))
+    let (out, e) := closeOutput c h payloads
+    let res := match e with | none => "ok" | some e => showErr e
+    some s!"{res} {out.length} {boolStr (hasEOF out)} {C01.joinOr ((memberSizes (out.length + 1) out).map toString)}"
+  | "c08.bound", [n] => do
+    some (toString (compressBound (← n.toNat?)))
   | _, _ => none
 
 end Hts.Drv.C08
